@@ -459,19 +459,23 @@ PART = ReqC07Part()
 CLAIM_TEXT = ("REQ: kernel-checked theorems over ALL histories of new/update/merge/copy/query operations on any number of live "
               "sketches, every k, both accuracy modes and every coin sequence, about an executable Lean model of req_compactor + req_sketch: "
               "n exact and min/max exact w.r.t. the specification `inputOf` (items fed through updates, merges, copies); the code never "
-              "throws 'compaction range error'; the iterator yields exactly num_retained pairs with weights 2^lg_weight summing to n for every "
-              "NON-EMPTY sketch (and fails exactly for empty ones); num_retained / max_nom_size bookkeeping exact, no empty compactor in a "
-              "non-empty sketch; num_retained < max_nom_size after every operation (non-lazy compression; capacity-monotone section "
-              "schedule = hypothesis SecOK, checked by execution for the float code); all levels above 0 sorted, lg_weight = level; direct "
-              "get_rank = the sorted view's rank = weight below, view total = n; while one level the sorted view is the ascending input with "
-              "unit weights. Tied to the real headers by a differential check with harness-supplied coins and by the property oracle on "
-              "every implementation trace. weight_conserved is FALSE for an empty sketch as coded (begin() != end()) and get_quantile(NaN) "
-              "is answered: witness theorem / replay / proposed fixes, listed as open known findings.")
+              "throws 'compaction range error'; iterating begin()..end() yields exactly num_retained pairs with weights 2^lg_weight summing "
+              "to n for EVERY sketch incl. the empty one (req_weight_conserved_repaired, for the iterator shape the current headers have: "
+              "it skips empty compactors; the shape is re-read from the source on every run and the executed model follows it; the pinned "
+              "iterator that started inside compactor 0 is kept as req_weight_conserved_full_false / _partial); get_quantile answers only a "
+              "non-empty sketch and a rank with rank >= 0 && rank <= 1, so NaN is rejected (req_invalid_rank_rejected_repaired); "
+              "num_retained / max_nom_size bookkeeping exact, no empty compactor in a non-empty sketch; num_retained < max_nom_size after "
+              "every operation (non-lazy compression; capacity-monotone section schedule = hypothesis SecOK, checked by execution for the "
+              "float code); all levels above 0 sorted, lg_weight = level; direct get_rank = the sorted view's rank = weight below, view total "
+              "= n; while one level the sorted view is the ascending input with unit weights. Tied to the real headers by a differential "
+              "check with harness-supplied coins and by the property oracle on every implementation trace. The two defects this check found "
+              "(begin() != end() on an empty sketch; get_quantile(NaN) answered) are repaired in /repo (f746338, e01cb97): reverting either "
+              "gives a VIOLATION with a failing input.")
 
 
 class C07Req(Spec):
     pid = "C07"
-    props_modules = ["DSProofs.Props.C07_Req"]
+    props_modules = ["DSProofs.Props.C07_Req", "DSProofs.Props.C07_Req_Repaired"]
     tfamilies = ["req"]
     rule = ("REQ part: histories over 1-7 live sketches (k 4-12 quick / 4-300 thorough, HRA and LRA, rare mode mix), updates in runs "
             "(random/sorted/reversed/constant/duplicates/narrow, NaN), lvalue/rvalue merges in random trees incl. unequal k and empty "
@@ -483,6 +487,7 @@ class C07Req(Spec):
                     "tools/trules/req.py (MIN_K, INIT_NUM_SECTIONS, MULTIPLIER, LAZY_COMPRESSION, RSE constants regenerated every run)"]
     assumptions = ["theorems are about DSModel/Req/*.lean; the tie to req_compactor_impl.hpp / req_sketch_impl.hpp is differential (sampled)",
                    "items are doubles holding integers (and NaN); other item types / custom comparators are not exercised",
+                   "the iterator shape and the rank range check are read from the current headers (tools/trules/req.py: DSGen.req_ITER_SKIPS_EMPTY, req_NAN_RANK_REJECTED; unknown shape = broken tie); that NaN fails `rank >= 0` is IEEE semantics of the executed Float comparison, not a kernel fact",
                    "retained < max_nom_size is proved under SecOK (nominal capacity does not shrink when sections double), checked by execution for every k (dsmodel_req selftest)"]
 
     def parts(self):
